@@ -436,7 +436,7 @@ impl<'a, T: Read + Write + Seek> PointCloudWriter<'a, T> {
             Error::invalid("Number of values does not match prototype length")?
         }
 
-        // Go over all values to validate and extract min/max values
+        // Validate all values first, a rejected point must not leave any traces behind
         for (i, p) in self.prototype.iter().enumerate() {
             let value = &values[i];
 
@@ -467,7 +467,10 @@ impl<'a, T: Read + Write + Seek> PointCloudWriter<'a, T> {
                     ))?
                 }
             }
+        }
 
+        // Go over all values again to extract min/max values
+        for (i, p) in self.prototype.iter().enumerate() {
             // Update cartesian bounds
             if p.name == RecordName::CartesianX
                 || p.name == RecordName::CartesianY
